@@ -2642,7 +2642,7 @@ STEP_MODULES = [
     ("Collect", "T11", ("C06",), lambda ast: t11(ast)[:1]),
     ("ByFsm", "T12", ("C07", "C10", "C19"), lambda ast: t12(ast)),
     ("Ring", "T13", ("C13",), lambda ast: t13(ast)),
-    ("ReadChar", "T14", ("C01", "C12"), lambda ast: t14_read(ast)),
+    ("ReadChar", "T14", ("C01", "C12", "C15"), lambda ast: t14_read(ast)),
     ("Lanes", "T15", ("C02",), lambda ast: t15(ast)),
     ("Format", "T16/T17", ("C07", "C08", "C19"), lambda ast: t16(ast) + t17(ast)),
     ("ParseArgs", "T18", ("C04", "C05", "C08"), lambda ast: t18(ast)),
